@@ -1292,8 +1292,8 @@ def run(ck):
     nfixed = run_fixed_probes(ck, cproc) if not ck.violations else 0
     # 2. types
     hist, depth_h, size_h, mix_h = {}, {}, {}, {}
-    n_main = 900 if quick else 30000
-    n_side = 60 if quick else 1500
+    n_main = 1500 if quick else 90000
+    n_side = 100 if quick else 4000
     pool = {}
     for mode in ("main", "bitmix", "packed", "alignas", "unnamed", "flex", "valist"):
         if ck.violations:
@@ -1318,7 +1318,7 @@ def run(ck):
     shist = {}
     if not ck.violations:
         sg = SGen(rng, sorted(pool))
-        n_sig = 500 if quick else 12000
+        n_sig = 1000 if quick else 36000
         sigs = [sg.sig(rng.choice(["def", "def", "call", "call", "call", "vadef"])) for _ in range(n_sig)]
         for s in sigs:
             sig_hist(s, shist)
